@@ -7,9 +7,9 @@
    see [bucket_safe]) and are the identity.  Array indexing is [nth] with default 0; that the
    indices are in range (no panic) is part of [bucket_safe]. *)
 From Rend Require Import base.Bytes gen.Consts_gen gen.Tables_gen metrics.Lzcnt.
+From Rend Require Export gen.GoSem.   (* [tab]: indexing of a generated table, shared with gen/Funcs_gen.v *)
 Open Scope N_scope.
 
-Definition tab (l : list N) (i : N) : N := nth (N.to_nat i) l 0.
 
 Section WithLzcnt.
   Variable lz : N -> N.      (* the lzcnt routine linked in: assembly on amd64, portable elsewhere *)
